@@ -317,8 +317,6 @@ MUTANTS = [
             ]""", "hang_binop raw-trivia-attached"),
     ("loopexit-metadata", "C14", "src/cli/main.rs",
      "                    if path.is_file() {", "                    if fs::metadata(&path)?.is_file() {", "walk-loop-aborts-on"),
-    ("errstatus-revert", "C13", "src/cli/main.rs",
-     "                                    EXIT_CODE.store(2, Ordering::SeqCst);\n", "", "error-handled-without-status-2"),
     ("worker-skip-send", "C14", "src/cli/main.rs",
      "            fs::write(path, formatted_contents)\n                .with_context(|| format!(\"could not write to {}\", path.display()))?;\n        }",
      "        }\n        fs::write(path, formatted_contents)\n            .with_context(|| format!(\"could not write to {}\", path.display()))?;",
@@ -376,8 +374,8 @@ MUTANTS = [
      "opt::OutputFormat::Unified => output_diff::output_diff_unified(original, expected).map(|o| o.map(|mut v| { v.retain(|b| *b != b'\\r'); v })),",
      "diff-bytes-modified producer=output_diff_unified"),
     ("errstatus-broken-pipe-diff", "C13", "src/cli/main.rs",
-     "                            Ok(_) => (),\n                            Err(err) => error!(\"{:#}\", err),",
-     "                            Ok(_) => (),\n                            Err(err) if err.kind() == std::io::ErrorKind::BrokenPipe => (),\n                            Err(err) => error!(\"{:#}\", err),",
+     "                            Ok(_) => (),\n                            Err(err) => {\n                                EXIT_CODE.store(2, Ordering::SeqCst);\n                                error!(\"{:#}\", err)\n                            }",
+     "                            Ok(_) => (),\n                            Err(err) if err.kind() == std::io::ErrorKind::BrokenPipe => (),\n                            Err(err) => {\n                                EXIT_CODE.store(2, Ordering::SeqCst);\n                                error!(\"{:#}\", err)\n                            }",
      "error-handled-without-status-2 on=result-of-write_all"),
     ("sort-other-partition-short-toggle", "C12", "src/sort_requires.rs",
      """                for stmt in list.iter() {
@@ -422,6 +420,12 @@ MUTANTS = [
      "        let comment_between_token_and_returns = return_token_trailing_comments\n            || returns\n",
      "        let comment_between_token_and_returns = returns\n",
      "comment-test-does-not-force-layout has_trailing_comments"),
+    ("f24-store-only-when-logged", "C13", "src/cli/main.rs",
+     "            if output.is_err() {\n                EXIT_CODE.store(2, Ordering::SeqCst);\n            }\n",
+     "            if output.is_err() && log::log_enabled!(log::Level::Error) {\n                EXIT_CODE.store(2, Ordering::SeqCst);\n            }\n",
+     "error-handled-without-status-2"),
+    ("f24-walker-store-dropped", "C14", "src/cli/main.rs",
+     "        if result.is_err() {\n            EXIT_CODE.store(2, Ordering::SeqCst);\n        }\n", "", "walker-error-without-status-2"),
 ]
 
 
